@@ -13,12 +13,18 @@
    consistent chain can produce: every claim records the confirmation height of the transaction whose output it spends, is
    dropped exactly when that transaction is disconnected, is pending for as long as its output exists unspent (by a final
    spend) on the best chain, is re-issued at every height-timer expiry, and the drain theorem for histories with reorgs.
+   Third part (Model/Packages.lean, shared with C07; decisions TRANSLATED into Generated/Packages.lean on every run): the PACKAGE layer of
+   OnchainTxHandler — split_package / merge_package never drop an outpoint, a merged package's timer / feerate / deadline is the minimum,
+   the package timer is never later than any member's own timer, and for every accepted block: no pending request keeps an outpoint whose
+   spend confirmed in that block (unless the block spent ALL of it and its `Claim` entry waits for burial), and no claim re-issued while the
+   block is processed spends an outpoint the block spent.
    What is NOT formalised (validated by the c06justice run with libbitcoinconsensus): key
-   derivation, script/witness construction, OnchainTxHandler package aggregation and splitting. -/
+   derivation, script/witness construction. -/
 import LdkModel.Props.C05
 import LdkModel.Proofs.Punish
 import LdkModel.Proofs.Package
 import LdkModel.Proofs.JusticeChain
+import LdkModel.Proofs.Packages
 namespace Ldk.C06
 open Ldk Ldk.Secrets Ldk.Punish Ldk.Pkg
 
@@ -585,5 +591,133 @@ example : created (run W1 (St.init 100) [.connect [.commit, .second 0]]) (.secon
 -- a "first input only" filter would have dropped it: the first input is not the commitment's
 example : (inputRefs W1 (.second 0)).head? = some .other ∧ spendsWatched W1 (St.init 100).seen (.second 0) = false := by decide
 end Reorg
+
+/-! ## the package layer of OnchainTxHandler (Model/Packages.lean; decisions translated: Generated/Packages.lean) -/
+
+section Packages
+open Ldk.Packages Ldk.PkgLayer Ldk.JusticeGen
+
+/-- **revoked_to_local_deadline_is_counterparty_csv** — the `counterparty_spendable_height` the monitor gives the justice package of the
+    revoked `to_local` output (and of a revoked second-stage output) is the confirmation height plus the delay IN THE CHEATER'S SCRIPT
+    (`counterparty_commitment_params.on_counterparty_tx_csv`), whatever the delay on our own outputs is (`on_holder_tx_csv`, a translatable
+    name too: a call site that picks the wrong delay changes the generated definition and refutes this theorem) — so the bump schedule
+    (`get_height_timer`, translated) re-issues the claim EVERY block once the cheater's CSV is at most MIDDLE_FREQUENCY_BUMP_INTERVAL away. -/
+theorem revoked_to_local_deadline_is_counterparty_csv (h csv holderCsv cur : Nat) :
+    toLocalSpendableHeight h csv holderCsv = h + csv ∧ secondStageSpendableHeight h csv holderCsv = h + csv ∧
+    (h + csv ≤ cur + MIDDLE_FREQUENCY_BUMP_INTERVAL →
+      getHeightTimer cur (toLocalSpendableHeight h csv holderCsv) [.revokedOutput] = cur + HIGH_FREQUENCY_BUMP_INTERVAL) := by
+  refine ⟨rfl, rfl, fun hle => ?_⟩
+  have h1 : HIGH_FREQUENCY_BUMP_INTERVAL = 1 := rfl
+  have h2 : MIDDLE_FREQUENCY_BUMP_INTERVAL = 3 := rfl
+  have h3 : LOW_FREQUENCY_BUMP_INTERVAL = 15 := rfl
+  simp only [getHeightTimer, List.foldl_cons, List.foldl_nil, heightTimerStep, timerForTargetConf, toLocalSpendableHeight,
+    decide_eq_true_eq, if_pos hle, Nat.min_def]
+  split <;> omega
+
+example : getHeightTimer 140 (toLocalSpendableHeight 100 42 2016) [.revokedOutput] = 141 := by decide
+
+variable {α : Type} [DecidableEq α]
+
+/-- **package_split_never_drops** — the split loop of update_claims_view_from_matched_txn (split_package for every input of a confirmed
+    transaction) loses nothing: an outpoint of the request is still in the request afterwards, or it is an input of that transaction and
+    was handed back as a single-outpoint package (which becomes a `ContentiousOutpoint` entry). -/
+theorem package_split_never_drops (p : Package α) (ins : List α) (x : α) (hx : x ∈ p.outpoints) :
+    x ∈ (splitAll p ins).1.outpoints ∨ (x ∈ ins ∧ ∃ d ∈ (splitAll p ins).2, d.outpoints = [x]) :=
+  splitAll_never_drops p ins x hx
+
+def exPkg : Package Nat :=
+  { inputs := [(0, { kind := .revokedOutput }), (1, { kind := .revokedHTLCOutput }), (2, { kind := .revokedHTLCOutput })], mall := .malleable .unpinnable, spendable := 200, feerate := 253, timer := 115 }
+example : ((splitAll exPkg [1, 7]).1.outpoints, (splitAll exPkg [1, 7]).2.map (·.outpoints)) = ([0, 2], [[1]]) := by decide
+
+/-- **package_merge_never_drops_takes_minimum** — merge_package keeps every outpoint of both packages and takes the MINIMUM of the two
+    height timers, the two previous feerates and the two counterparty_spendable_heights (translated assignments). -/
+theorem package_merge_never_drops_takes_minimum (p q r : Package α) (cur : Nat) (h : p.merge q cur = some r) :
+    r.outpoints = p.outpoints ++ q.outpoints ∧ r.timer = min p.timer q.timer ∧ r.feerate = min p.feerate q.feerate ∧
+    r.spendable = min p.spendable q.spendable :=
+  ⟨merge_outpoints p q r cur h, merge_minimum p q r cur h⟩
+
+/-- **package_timer_not_later_than_member** — `get_height_timer` of an aggregated package is never later than the `get_height_timer` any of
+    its members would have alone (also with the member's own, possibly later, counterparty_spendable_height: a merged package keeps the
+    minimum), and the stored `height_timer` of a merged package is never later than either part's: the re-issue guarantees of Model/JusticeChain.lean
+    (one timer per outpoint) lift to packages. -/
+theorem package_timer_not_later_than_member (p q r : Package α) (cur now : Nat) (h : p.merge q cur = some r) :
+    (∀ e ∈ p.inputs, r.heightTimer now ≤ getHeightTimer now p.spendable [e.2.kind]) ∧
+    (∀ e ∈ q.inputs, r.heightTimer now ≤ getHeightTimer now q.spendable [e.2.kind]) ∧
+    r.timer ≤ p.timer ∧ r.timer ≤ q.timer := by
+  obtain ⟨ht, _, hs⟩ := merge_minimum p q r cur h
+  have hin : r.inputs = p.inputs ++ q.inputs := by
+    unfold Package.merge at h; split at h
+    · cases h; rfl
+    · cases h
+  refine ⟨fun e he => ?_, fun e he => ?_, by omega, by omega⟩
+  · exact heightTimer_le_member now r.spendable p.spendable r.kinds e.2.kind
+      (by unfold Package.kinds; rw [hin]; exact List.mem_map.mpr ⟨e, List.mem_append_left _ he, rfl⟩) (by omega)
+  · exact heightTimer_le_member now r.spendable q.spendable r.kinds e.2.kind
+      (by unfold Package.kinds; rw [hin]; exact List.mem_map.mpr ⟨e, List.mem_append_right _ he, rfl⟩) (by omega)
+
+def exP : Package Nat := { inputs := [(0, { kind := .revokedOutput })], mall := .malleable .unpinnable, spendable := 300, feerate := 500, timer := 130 }
+def exQ : Package Nat := { inputs := [(1, { kind := .revokedHTLCOutput, offered := true })], mall := .malleable .unpinnable, spendable := 250, feerate := 253, timer := 115 }
+example : (exP.merge exQ 100).map (fun r => (r.outpoints, r.spendable, r.feerate, r.timer)) = some ([0, 1], 250, 253, 115) := by decide
+
+/-- **no_pending_package_keeps_a_spent_outpoint** (partition, block level) — for EVERY handler state satisfying the consistency check
+    `wfB` (evaluated on every real handler state by the differential) and EVERY block the model accepts, with any number of transactions
+    spending any outpoints in any order: after update_claims_view_from_matched_txn a pending request that still contains an outpoint spent
+    by a transaction of the block is ENTIRELY spent by the block and has its `Claim` entry at that height (it is only kept for
+    ANTI_REORG_DELAY); every other pending request contains no outpoint whose spend confirmed in the block.  Uses the TRANSLATED branch
+    condition `splitBranch`. -/
+theorem no_pending_package_keeps_a_spent_outpoint (height : Nat) (feeOk : Nat → Bool) (h0 : Handler α) (txs : List (Tx α))
+    (hwf : h0.wfB = true) (r : BlockResult α) (hr : connectBlock height feeOk h0 txs = some r) :
+    ∀ e ∈ r.handler.pending, ∀ o ∈ e.2.outpoints, o ∈ blockSpent txs →
+      hasClaimAt r.handler.events e.1 height ∧ ∀ o' ∈ e.2.outpoints, o' ∈ blockSpent txs :=
+  connectBlock_no_spent_outpoint_left height feeOk h0 txs (wfB_sound h0 hwf) r hr
+
+/-- **reissue_spends_only_unspent_outpoints** — … and every claim (re)issued while the block is processed (the replacement of a request
+    that transactions of the block split, and every timer bump) spends only outpoints that NO transaction of the block spends.  Uses the
+    TRANSLATED queueing rule `bumpInsertOverwrites` (the bump candidate is the request after ALL splits of the block). -/
+theorem reissue_spends_only_unspent_outpoints (height : Nat) (feeOk : Nat → Bool) (h0 : Handler α) (txs : List (Tx α))
+    (hwf : h0.wfB = true) (r : BlockResult α) (hr : connectBlock height feeOk h0 txs = some r) :
+    ∀ i ∈ r.issued, ∀ o ∈ i.spends, o ∉ blockSpent txs :=
+  connectBlock_reissue_spends_unspent height feeOk h0 txs (wfB_sound h0 hwf) r hr
+
+/-- **remaining_package_still_covers_the_rest** — after a counterparty second-stage spend (any block, any transactions): every outpoint of a
+    pending request that NO transaction of the block spends is still an outpoint of the pending request with the same claim id — the only
+    exception being a request whose complete spend (an earlier `Claim` entry) has just reached ANTI_REORG_DELAY confirmations.  (The output
+    of the second-stage transaction itself is a NEW request: `regClaims` of Model/JusticeChain.lean, `justice_claim_pending`.) -/
+theorem remaining_package_still_covers_the_rest (height : Nat) (feeOk : Nat → Bool) (h0 : Handler α) (txs : List (Tx α))
+    (hwf : h0.wfB = true) (r : BlockResult α) (hr : connectBlock height feeOk h0 txs = some r) :
+    ∀ e0 ∈ h0.pending, ∀ o ∈ e0.2.outpoints, o ∉ blockSpent txs →
+      (∃ e ∈ r.handler.pending, e.1 = e0.1 ∧ o ∈ e.2.outpoints) ∨
+      (∃ t hg, Ev.claim e0.1 t hg ∈ h0.events ∧ handlerThresholdReached hg height = true) :=
+  connectBlock_rest_still_covered height feeOk h0 txs (wfB_sound h0 hwf) r hr
+
+/-- **aggregation_never_drops** — the aggregation loop of update_claims_view_from_requests (`can_merge_with` / `merge_package`, translated)
+    issues requests that claim exactly the outpoints of the requests it was given, for every list of requests and every height. -/
+theorem aggregation_never_drops (cur : Nat) (reqs : List (Package α)) (x : α) :
+    x ∈ (aggregate cur reqs).flatMap Package.outpoints ↔ x ∈ reqs.flatMap Package.outpoints :=
+  aggregate_never_drops cur reqs x
+
+-- to_local (unpinnable, CSV far away) and two offered revoked HTLCs (unpinnable, expiry far away) aggregate into one package; a received one
+-- (pinnable: the cheater can take it with the preimage at once) stays on its own
+example : (aggregate 100 [exP, exQ, { exQ with inputs := [(2, { kind := .revokedHTLCOutput, offered := true })] },
+    ({ inputs := [(3, { kind := .revokedHTLCOutput })], mall := .malleable .pinnable, spendable := 100, feerate := 0, timer := 0 } : Package Nat)]).map (·.outpoints) = [[0, 2, 1], [3]] := by decide
+
+/-- a justice package `{to_local, HTLC_a, HTLC_b}` (claim id 7) and the cheater's TWO single-input HTLC transactions in ONE block -/
+def exHandler : Handler Nat :=
+  { pending := [(7, { inputs := [(0, { kind := .revokedOutput }), (1, { kind := .revokedHTLCOutput, offered := true }), (2, { kind := .revokedHTLCOutput, offered := true })],
+                      mall := .malleable .unpinnable, spendable := 500, feerate := 253, timer := 115 })],
+    claimable := [(0, 7, 100), (1, 7, 100), (2, 7, 100)], events := [], locked := [] }
+def exBlock : List (Tx Nat) := [⟨11, [1]⟩, ⟨12, [2]⟩]
+
+-- non-vacuity: the state is well-formed, the block accepted, both HTLC outpoints leave the request, ONE replacement claim spending only to_local
+example : exHandler.wfB = true ∧
+    (connectBlock 101 (fun _ => true) exHandler exBlock).map (fun r =>
+      (r.handler.pending.map (fun e => (e.1, e.2.outpoints)), r.issued.map (fun i => (i.id, i.spends)), r.handler.events.length)) =
+      some ([(7, [0])], [(7, [0])], 2) := by decide
+-- … and a block that spends the whole request: kept, with its `Claim` entry, nothing re-issued
+example : (connectBlock 101 (fun _ => true) exHandler [⟨13, [2, 0, 1]⟩]).map (fun r =>
+      (r.handler.pending.map (fun e => (e.1, e.2.outpoints)), r.issued.length, r.handler.events)) =
+      some ([(7, [0, 1, 2])], 0, [.claim 7 13 101]) := by decide
+
+end Packages
 
 end Ldk.C06
